@@ -249,14 +249,15 @@ class Snapshot:
         return ''.join(self.texts)
 
 
-def window(before, after):
-    """Longest common prefix/suffix by identity: returns (p, x, y, s) = lengths of prefix, removed, inserted, suffix."""
+def window(before, after, by_text=False):
+    """Longest common prefix/suffix by identity (and, with by_text, unchanged text): returns (p, x, y, s) = lengths of prefix,
+    removed, inserted, suffix."""
     nb, na = len(before.tokens), len(after.tokens)
     p = 0
-    while p < nb and p < na and before.tokens[p] is after.tokens[p]:
+    while p < nb and p < na and before.tokens[p] is after.tokens[p] and (not by_text or before.texts[p] == after.texts[p]):
         p += 1
     s = 0
-    while s < nb - p and s < na - p and before.tokens[nb - 1 - s] is after.tokens[na - 1 - s]:
+    while s < nb - p and s < na - p and before.tokens[nb - 1 - s] is after.tokens[na - 1 - s] and (not by_text or before.texts[nb - 1 - s] == after.texts[na - 1 - s]):
         s += 1
     return p, nb - p - s, na - p - s, s
 
@@ -265,10 +266,12 @@ def is_separator(t):
     return (not t.raw_text) or t.RULE in ('WHITESPACE', '_NEWLINE', '_COMMA')
 
 
-def check_window(before, after, parent_first, parent_last, old_tokens, new_tokens, what='window'):
-    """C03 window rule.  parent_first/parent_last: tokens delimiting the parent BEFORE the edit (identity)."""
+def check_window(before, after, parent_first, parent_last, old_tokens, new_tokens, what='window', inplace_ok=False):
+    """C03 window rule.  parent_first/parent_last: tokens delimiting the parent BEFORE the edit (identity).
+    inplace_ok: a value-level assignment may keep a token of the old child and change its text (the token then belongs to the
+    window and must be one of old_tokens); separators never change text in place."""
     with NoTracing():
-        p, x, y, s = window(before, after)
+        p, x, y, s = window(before, after, by_text=inplace_ok)
         nb = len(before.tokens)
         a = before.index[id(parent_first)]
         b = before.index[id(parent_last)]
@@ -291,7 +294,8 @@ def check_window(before, after, parent_first, parent_last, old_tokens, new_token
                 check(after_pos[id(t)] > last, what, 'surviving tokens were re-ordered', R_(t))
                 last = after_pos[id(t)]
                 survivors.add(id(t))
-                check(after.texts[after_pos[id(t)]] == before.texts[before.index[id(t)]], what, 'text of a surviving token changed', R_(t))
+                check(after.texts[after_pos[id(t)]] == before.texts[before.index[id(t)]] or (inplace_ok and id(t) in old_ids and t.raw_text != ''),
+                      what, 'text of a surviving token changed', R_(t))
         for t in before.tokens[p:p + x]:
             if id(t) not in survivors:
                 check(id(t) in old_ids or is_separator(t), what, 'a token that is neither the old child nor a separator disappeared', R_(t))
